@@ -97,7 +97,9 @@ def ofRMsg (r : RMsg) : Pub :=
   { topic := r.topic, qos := r.qos, payload := r.payload, dup := r.dup, retain := r.retain, pktid := r.pktid }
 
 /-- `svc.onpub` of connection `d`: clear RETAIN, `publish` (writeMessage + queue
-registration), restore RETAIN only on success. -/
+registration), restore RETAIN only on success.  (Since the fan-out loops clear the
+flag themselves the closure finds it cleared already: `sr` is false on every call
+that `onPublish` makes; the closure is modelled as it stands in the code.) -/
 def deliverConn (b : B) (d : Nat) (m : Msg) : B × Msg × List Out :=
   let sr := m.p.retain
   let m1 : Msg := if sr then { m with p := { m.p with retain := false } } else m
@@ -133,14 +135,28 @@ def retainStep (b : B) (m : Msg) : B × Msg :=
     | none => (b, m)
     | some (wire, m', ctr) => ({ b with topics := (b.topics.retain (toRMsg wire)).1, ctr := ctr }, m')
 
-/-- `onPublish(msg)`: retain step, subscriber lookup, fan-out.  The Bool is
+/-- `SetRetain`: flips the flag bit in place; does not touch `dirty` -/
+def Msg.setRetain (m : Msg) (v : Bool) : Msg := { m with p := { m.p with retain := v } }
+
+/-- the live fan-out of `onPublish` (broker role) / `Server.Publish`: the RETAIN
+flag of the message object is cleared once before the loop
+(`sr := msg.Retain(); if sr { msg.SetRetain(false) }`), every subscriber -
+connection or in-process callback - is handed the object in that state, and the
+flag is restored after the loop (`if sr { msg.SetRetain(true) }`). -/
+def fanoutLive (b : B) (m : Msg) (subs : List (Nat × Nat)) : B × Msg × List Out :=
+  let sr := m.p.retain
+  let (b2, m2, o) := fanout b (if sr then m.setRetain false else m) subs
+  (b2, if sr then m2.setRetain true else m2, o)
+
+/-- `onPublish(msg)` in the broker role / `Server.Publish`: retain step (stores
+its own copy, RETAIN = 1), subscriber lookup, live fan-out.  The Bool is
 "returned nil". -/
 def onPublish (b : B) (m : Msg) : B × Msg × List Out × Bool :=
   let (b1, m1) := retainStep b m
   match b1.topics.subscribers m1.p.topic m1.p.qos with
   | none => (b1, m1, [], false)
   | some subs =>
-    let (b2, m2, o) := fanout b1 m1 subs
+    let (b2, m2, o) := fanoutLive b1 m1 subs
     (b2, m2, o, true)
 
 /-- `writeMessage` of a non-PUBLISH packet to connection `c` -/
